@@ -1,10 +1,30 @@
 ---------------------------- MODULE SshChanLifeMC ----------------------------
+(* Exhaustive run.  MCNext is Next with the parameter sets narrowed (request kinds, calls that cannot have an
+   effect are tried through loseConnection only) and the first openChannel fixed to side 1 when the two sides
+   are configured alike (symmetry). *)
 EXTENDS SshChanLife, TLC
 Init == \E a \in {<<TRUE, TRUE>>, <<TRUE, FALSE>>, <<FALSE, FALSE>>} : InitWith([auto |-> a])
-Spec == Init /\ [][Next]_vars
 MaxOpen == 2
-MaxLevel == 11
-Bound == /\ cnt.open <= MaxOpen /\ cnt.eof <= 1 /\ cnt.wr <= 1 /\ cnt.req <= 2 /\ cnt.res <= 2
+MaxLevel == 8
+Useful(s, c) == C(s, c).st = "open" /\ ~C(s, c).lc
+MCReqs == {<<"ok", 1>>, <<"defer", 1>>, <<"no", 1>>, <<"none", 0>>}
+MCNext ==
+    \/ \E s \in S, k \in {"ok", "bad"} : ((cnt.open = 0 /\ cfg.auto[1] = cfg.auto[2]) => s = 1) /\ Open(s, k)
+    \/ \E s \in S : DeliverOpen(s)
+    \/ \E s \in S : DeliverConf(s)
+    \/ \E s \in S : DeliverFail(s)
+    \/ \E s \in S : DeliverEofData(s)
+    \/ \E s \in S : DeliverClose(s)
+    \/ \E s \in S : DeliverReq(s)
+    \/ \E s \in S : DeliverReply(s)
+    \/ \E s \in S : \E c \in Ids(s) : Useful(s, c) /\ Eof(s, c)
+    \/ \E s \in S : \E c \in Ids(s) : Useful(s, c) /\ Write(s, c)
+    \/ \E s \in S : \E c \in Ids(s) : Close(s, c)
+    \/ \E s \in S : \E c \in Ids(s) : \E kw \in MCReqs : Useful(s, c) /\ Request(s, c, kw[1], kw[2])
+    \/ \E s \in S : \E c \in Ids(s) : \E i \in 1..Len(C(s, c).pend), ok \in {0, 1} : Resolve(s, c, i, ok)
+    \/ \E s \in S : Stop(s)
+Spec == Init /\ [][MCNext]_vars
+Bound == /\ cnt.open <= MaxOpen /\ cnt.eof <= 1 /\ cnt.wr <= 1 /\ cnt.req <= 2
          /\ TLCGet("level") <= MaxLevel
 View == <<cfg, ch, q, stopped, oorder, dfr, cnt>>
 StepProp == [][StepOK]_vars
